@@ -23,10 +23,15 @@ def loop(pkg, test, qs=4, ts=16, replay=None, timeout=900, ttimeout=7200, q=1, t
 CHECKS = {
     "C02": dict(tests=[rapid("storeprops", "TestC02", 24000, 2400000, qs=8)]),
     "C03": dict(tests=[rapid("storeprops", "TestC03Store", 24000, 1600000, qs=8, replay="TestC03StoreReplay")]),
+    "C06": dict(tests=[rapid("pure", "TestC06", 40000, 4000000, qs=8)]),
     "C08": dict(tests=[rapid("storeprops", "TestC08", 16000, 1600000, qs=8)]),
     "C09": dict(tests=[rapid("storeprops", "TestC09", 24000, 1600000, qs=8)]),
     "C10": dict(tests=[rapid("storeprops", "TestC10", 4000, 320000, qs=8)]),
     "C11": dict(tests=[rapid("storeprops", "TestC11", 24000, 1600000, qs=8)]),
+    "C14": dict(tests=[
+        rapid("pure", "TestC14", 24000, 2400000, qs=4),
+        rapid("pure", "TestC14InvalidInit", 16000, 1600000, qs=4, replay="TestC14InvalidInitReplay"),
+    ]),
     "C18": dict(tests=[
         rapid("storeprops", "TestC18Outputs", 8000, 800000, qs=4, replay="TestC18OutputsReplay"),
         rapid("storeprops", "TestC18Stores", 8000, 800000, qs=4, replay="TestC18StoresReplay"),
